@@ -277,7 +277,7 @@ fn model_rewrite(v: &RVal, kind: u8, n: &mut usize) -> RVal {
             RVal::Dt(d)
         }
         RVal::Array(a) => RVal::Array(a.iter().map(|x| model_rewrite(x, kind, n)).collect()),
-        RVal::Table(t) => RVal::Table(RTable { entries: t.entries.iter().map(|(k, x)| (k.clone(), model_rewrite(x, kind, n))).collect(), alt: None }),
+        RVal::Table(t) => RVal::Table(RTable { entries: t.entries.iter().map(|(k, x)| (k.clone(), model_rewrite(x, kind, n))).collect(), alt: None, dotted: t.dotted }),
         other => other.clone(),
     }
 }
